@@ -13,10 +13,10 @@
   day.  For zone-aware values the wall clock must be a `NaiveDate` (`Zoned.naive_local z = .ok l`);
   the values for which it is not are the known finding F25, see the witness at the end.
 -/
-import Chrono.Proofs.TextFormsZonedL
+import Chrono.Proofs.TextFormsExtL
 namespace Chrono.Props.C09
 open Chrono Chrono.M Chrono.M.Format Chrono.M.TextForms
-open Chrono.Proofs Chrono.Proofs.TextForms Chrono.Spec Chrono.Spec.Text Chrono.Extracted
+open Chrono.Proofs Chrono.Proofs.TextForms Chrono.Proofs.TextFormsExt Chrono.Spec Chrono.Spec.Text Chrono.Extracted
 
 /-! ### data tie -/
 
@@ -165,6 +165,153 @@ theorem roundtrip_DateTime_FixedOffset (z : Zoned) (hz : ZInv z) (hm : WholeMinu
     simp only [List.append_assoc, List.cons_append, List.nil_append]
   · exact fixed_from_text z hz hm.2.2 hs l hl 32 (Or.inr rfl) _ _ (tailOk_cons 32 _ (by decide) (by decide))
       (by rw [trimStart_space _ r3, htrim]) hT
+
+/-! ### zone-aware values on the whole quantifier domain (audit gaps M1, M2)
+
+`wallSecs z = instSecs z.utc + z.off` is the wall clock in whole seconds since the epoch and
+`InRangeSecs s` says that the reading `s` falls on a date of `NaiveDate::MIN..=MAX`
+(Spec/ZonedSpec.lean; plain arithmetic on day numbers, no chrono code).  Every well-formed value with a
+whole-minute offset satisfies exactly one of `InRangeSecs (wallSecs z)` / `¬ InRangeSecs (wallSecs z)`;
+the first case round-trips (`roundtrip_DateTime_FixedOffset_spec`), the second is the known finding F25
+(`fixed_out_of_range_never_parses_back`). -/
+
+/-- **DateTime<FixedOffset>, domain in specification terms.**  For every well-formed value with a
+whole-minute offset whose wall clock falls on a `NaiveDate`, the wall clock `l` (the reading of
+`wallSecs z` with the fraction field of `z`) is what both forms print, and `FromStr` reads either
+form back as the same instant with the same offset.  Same conclusion as
+`roundtrip_DateTime_FixedOffset`, with the side condition no longer phrased through the model's
+`naive_local`. -/
+theorem roundtrip_DateTime_FixedOffset_spec (z : Zoned) (hz : ZInv z) (hm : WholeMinute z.off)
+    (hs : TStrict z.utc.time) (hr : InRangeSecs (wallSecs z)) :
+    ∃ l, NDTInv l ∧ instSecs l = wallSecs z ∧ l.time.frac = z.utc.time.frac ∧
+      fixed_debug z = wok (naiveText 84 l ++ offsetText z.off) ∧
+      fixed_from_str (naiveText 84 l ++ offsetText z.off) = .ok (.ok z) ∧
+      fixed_display z = wok (naiveText 32 l ++ (32 :: offsetText z.off)) ∧
+      fixed_from_str (naiveText 32 l ++ (32 :: offsetText z.off)) = .ok (.ok z) := by
+  obtain ⟨l, _, hext, h3, h4, _, _, _, h5, h6⟩ := local_facts_ext z hz hm.2.2 hs
+  have hl : Zoned.naive_local z = .ok l := by rw [h5, if_pos hr]
+  exact ⟨l, ⟨(dateInv_iff l.date).mpr ⟨hext.1, h6.mp hr⟩, hext.2⟩, h3, h4,
+    roundtrip_DateTime_FixedOffset z hz hm hs l hl⟩
+
+/-- the wall clock named by `roundtrip_DateTime_FixedOffset_spec` is unique: a well-formed naive
+date-time is determined by its whole seconds and its fraction field -/
+theorem wall_clock_unique (a b : NaiveDT) (ha : NDTInv a) (hb : NDTInv b)
+    (h1 : instSecs a = instSecs b) (h2 : a.time.frac = b.time.frac) : a = b :=
+  ndt_unique a b ⟨((dateInv_iff a.date).mp ha.1).1, ha.2⟩ ⟨((dateInv_iff b.date).mp hb.1).1, hb.2⟩ h1 h2
+
+/-- non-vacuity of `roundtrip_DateTime_FixedOffset_spec`, on the last in-range wall-clock second:
+`MAX_UTC` − 1 min seen at +00:01 -/
+example : ZInv ⟨⟨Date.MAX, ⟨86339, 999999999⟩⟩, 60⟩ ∧ WholeMinute 60 ∧ TStrict (⟨86339, 999999999⟩ : Time) ∧
+    InRangeSecs (wallSecs ⟨⟨Date.MAX, ⟨86339, 999999999⟩⟩, 60⟩) ∧
+    wallSecs ⟨⟨Date.MAX, ⟨86339, 999999999⟩⟩, 60⟩ = SECS_MAX := by
+  unfold ZInv NDTInv OffValid WholeMinute
+  decide +kernel
+
+/-- **Known finding F25, universally.**  For EVERY well-formed value with a whole-minute offset whose
+wall clock does not fall on a `NaiveDate` (`¬ InRangeSecs (wallSecs z)`: the UTC reading is within
+|offset| of `MIN_UTC` / `MAX_UTC`), both forms print the wall clock `l` of the extended calendar —
+year `MIN_YEAR − 1 = -262144` or `MAX_YEAR + 1 = +262143`, same specified text shape — and `FromStr`
+answers `Err(OutOfRange)` for the `Debug` and for the `Display` text.  The property asks for
+`.ok (.ok z)`; together with `roundtrip_DateTime_FixedOffset_spec` this makes the side condition
+exact (`fixed_parses_back_iff`). -/
+theorem fixed_out_of_range_never_parses_back (z : Zoned) (hz : ZInv z) (hm : WholeMinute z.off)
+    (hs : TStrict z.utc.time) (hr : ¬ InRangeSecs (wallSecs z)) :
+    ∃ l, Zoned.overflowing_naive_local z = .ok l ∧ ExtNDTInv l ∧ instSecs l = wallSecs z ∧
+      l.time.frac = z.utc.time.frac ∧
+      (l.date.year = MIN_YEAR - 1 ∨ l.date.year = MAX_YEAR + 1) ∧
+      Zoned.naive_local z = .panic ∧
+      fixed_debug z = wok (naiveText 84 l ++ offsetText z.off) ∧
+      fixed_from_str (naiveText 84 l ++ offsetText z.off) = .ok (.error .outOfRange) ∧
+      fixed_display z = wok (naiveText 32 l ++ (32 :: offsetText z.off)) ∧
+      fixed_from_str (naiveText 32 l ++ (32 :: offsetText z.off)) = .ok (.error .outOfRange) := by
+  obtain ⟨l, hov, hext, h3, h4, hst, hv, he, h5, h6⟩ := local_facts_ext z hz hm.2.2 hs
+  obtain ⟨htxt, htail, hws, htrim, hT⟩ := offset_tail z.off hm
+  have hY : ¬ (MIN_YEAR ≤ l.date.year ∧ l.date.year ≤ MAX_YEAR) := fun h => hr (h6.mpr h)
+  have hyr : l.date.year = MIN_YEAR - 1 ∨ l.date.year = MAX_YEAR + 1 := by
+    have := hv.1; have := hv.2.1; omega
+  refine ⟨l, hov, hext, h3, h4, hyr, by rw [h5, if_neg hr], ?_, ?_, ?_, ?_⟩
+  · unfold fixed_debug zoned_debug
+    rw [hov, htxt]
+    simp only [W.ofRes]
+    obtain ⟨Y, O, hv', he'⟩ : ∃ Y O, VYO Y O ∧ l = ⟨dateOfYo Y O, l.time⟩ := ⟨_, _, hv, he⟩
+    rw [he', naive_debug_text_ext Y O hv' _ hst.1, seq_wok]
+  · exact fixed_from_text_oor l hv he hY hst z.off hz.2 84 (Or.inl rfl) _ _ htail (by rw [htrim, htrim]) hT
+  · unfold fixed_display zoned_display
+    rw [hov, htxt]
+    simp only [W.ofRes]
+    obtain ⟨Y, O, hv', he'⟩ : ∃ Y O, VYO Y O ∧ l = ⟨dateOfYo Y O, l.time⟩ := ⟨_, _, hv, he⟩
+    rw [he', naive_display_text_ext Y O hv' _ hst.1, seq_wok, seq_wok]
+    simp only [List.cons_append, List.nil_append]
+  · exact fixed_from_text_oor l hv he hY hst z.off hz.2 32 (Or.inr rfl) _ _
+      (tailOk_cons 32 _ (by decide) (by decide)) (by rw [trimStart_space _ hws, htrim]) hT
+
+/-- **the side condition is exact**: over the whole quantifier domain (well-formed value, whole-minute
+offset, leap second only on second 59) the printed text — `Debug` or `Display` — of the wall clock `l`
+reads back as the value if and only if the wall clock falls on a `NaiveDate` -/
+theorem fixed_parses_back_iff (z : Zoned) (hz : ZInv z) (hm : WholeMinute z.off) (hs : TStrict z.utc.time) :
+    ∃ l, Zoned.overflowing_naive_local z = .ok l ∧
+      fixed_debug z = wok (naiveText 84 l ++ offsetText z.off) ∧
+      fixed_display z = wok (naiveText 32 l ++ (32 :: offsetText z.off)) ∧
+      (fixed_from_str (naiveText 84 l ++ offsetText z.off) = .ok (.ok z) ↔ InRangeSecs (wallSecs z)) ∧
+      (fixed_from_str (naiveText 32 l ++ (32 :: offsetText z.off)) = .ok (.ok z) ↔ InRangeSecs (wallSecs z)) := by
+  by_cases hr : InRangeSecs (wallSecs z)
+  · obtain ⟨l, hov, _, _, _, _, _, _, h5, _⟩ := local_facts_ext z hz hm.2.2 hs
+    have hl : Zoned.naive_local z = .ok l := by rw [h5, if_pos hr]
+    obtain ⟨a, b, c, d⟩ := roundtrip_DateTime_FixedOffset z hz hm hs l hl
+    exact ⟨l, hov, a, c, ⟨fun _ => hr, fun _ => b⟩, ⟨fun _ => hr, fun _ => d⟩⟩
+  · obtain ⟨l, hov, _, _, _, _, _, a, b, c, d⟩ := fixed_out_of_range_never_parses_back z hz hm hs hr
+    refine ⟨l, hov, a, c, ⟨fun h => ?_, fun h => absurd h hr⟩, ⟨fun h => ?_, fun h => absurd h hr⟩⟩
+    · rw [b] at h; cases h
+    · rw [d] at h; cases h
+
+/-- F25 on the MIN side, both forms: `MIN_UTC` seen at -00:01 prints the wall-clock year -262144 -/
+theorem fixed_local_before_min_does_not_parse_back :
+    ZInv ⟨NaiveDT.MIN, -60⟩ ∧ WholeMinute (-60) ∧ TStrict NaiveDT.MIN.time ∧
+    ¬ InRangeSecs (wallSecs ⟨NaiveDT.MIN, -60⟩) ∧
+    fixed_debug ⟨NaiveDT.MIN, -60⟩ = wok (asciiBytes "-262144-12-31T23:59:00-00:01") ∧
+    fixed_from_str (asciiBytes "-262144-12-31T23:59:00-00:01") = .ok (.error .outOfRange) ∧
+    fixed_display ⟨NaiveDT.MIN, -60⟩ = wok (asciiBytes "-262144-12-31 23:59:00 -00:01") ∧
+    fixed_from_str (asciiBytes "-262144-12-31 23:59:00 -00:01") = .ok (.error .outOfRange) := by
+  have hz : ZInv ⟨NaiveDT.MIN, -60⟩ := by unfold ZInv NDTInv OffValid; decide +kernel
+  have hm : WholeMinute (-60) := by unfold WholeMinute; decide
+  have hs : TStrict NaiveDT.MIN.time := by decide +kernel
+  have hr : ¬ InRangeSecs (wallSecs ⟨NaiveDT.MIN, -60⟩) := by decide +kernel
+  obtain ⟨l, hov, _, _, _, _, _, a, b, c, d⟩ :=
+    fixed_out_of_range_never_parses_back ⟨NaiveDT.MIN, -60⟩ hz hm hs hr
+  have hl : Zoned.overflowing_naive_local ⟨NaiveDT.MIN, -60⟩ = .ok ⟨dateOfYo (-262144) 366, ⟨86340, 0⟩⟩ := by
+    decide +kernel
+  rw [hl] at hov
+  injection hov with hov
+  subst hov
+  have t84 : naiveText 84 ⟨dateOfYo (-262144) 366, ⟨86340, 0⟩⟩ ++ offsetText (-60) =
+      asciiBytes "-262144-12-31T23:59:00-00:01" := by decide +kernel
+  have t32 : naiveText 32 ⟨dateOfYo (-262144) 366, ⟨86340, 0⟩⟩ ++ (32 :: offsetText (-60)) =
+      asciiBytes "-262144-12-31 23:59:00 -00:01" := by decide +kernel
+  rw [t84] at a b
+  rw [t32] at c d
+  exact ⟨hz, hm, hs, hr, a, b, c, d⟩
+
+/-- F25 on the MAX side in the `Display` form (the `Debug` form is
+`fixed_local_out_of_range_does_not_parse_back` below) -/
+theorem fixed_local_after_max_display_does_not_parse_back :
+    ¬ InRangeSecs (wallSecs ⟨NaiveDT.MAX, 60⟩) ∧
+    fixed_display ⟨NaiveDT.MAX, 60⟩ = wok (asciiBytes "+262143-01-01 00:00:59.999999999 +00:01") ∧
+    fixed_from_str (asciiBytes "+262143-01-01 00:00:59.999999999 +00:01") = .ok (.error .outOfRange) := by
+  have hz : ZInv ⟨NaiveDT.MAX, 60⟩ := by unfold ZInv NDTInv OffValid; decide +kernel
+  have hm : WholeMinute 60 := by unfold WholeMinute; decide
+  have hs : TStrict NaiveDT.MAX.time := by decide +kernel
+  have hr : ¬ InRangeSecs (wallSecs ⟨NaiveDT.MAX, 60⟩) := by decide +kernel
+  obtain ⟨l, hov, _, _, _, _, _, _, _, c, d⟩ :=
+    fixed_out_of_range_never_parses_back ⟨NaiveDT.MAX, 60⟩ hz hm hs hr
+  have hl : Zoned.overflowing_naive_local ⟨NaiveDT.MAX, 60⟩ = .ok ⟨dateOfYo 262143 1, ⟨59, 999999999⟩⟩ := by
+    decide +kernel
+  rw [hl] at hov
+  injection hov with hov
+  subst hov
+  have t32 : naiveText 32 ⟨dateOfYo 262143 1, ⟨59, 999999999⟩⟩ ++ (32 :: offsetText 60) =
+      asciiBytes "+262143-01-01 00:00:59.999999999 +00:01" := by decide +kernel
+  rw [t32] at c d
+  exact ⟨hr, c, d⟩
 
 /-- **DateTime<Utc>**, both forms: the text is the UTC reading followed by `Z` (`Debug`), resp. by
 ` UTC` (`Display`), and `FromStr` reads either back as the same value -/
